@@ -30,6 +30,7 @@ fn main() {
         "replay1" => replay::main_one(&args[2..]),
         "replay-child" => replay::main_child(&args[2..]),
         "record" => record::main(&args[2..]),
+        "retrace" => record::main_retrace(&args[2..]),
         "dump" => dump::main(&args[2..]),
         "dotcheck" => dot::main(&args[2..]),
         "serde" => serde_check::main(&args[2..]),
